@@ -451,7 +451,8 @@ REGISTRY = {
                  "distinguishes: each arithmetic/copy arm of the selector has exactly the effect dst := src0 op src1 under every "
                  "aliasing/residency/liveness/immediate-size input (SEL-EFFECT, SEL-COVER); every encoder emits the reference "
                  "x86-64 encoding (ASM-TABLE, ASM-CORE, SEL-WIDTH); runtime calls, the bounds probe, the budget check, branches and "
-                 "the frame follow their protocols (CALL-SAVE, CALL-PROTO, JIT-TERM, PROBE-SEQ, LIM-JIT, BR-JIT, FRAME, ABI-OFFSETS). "
+                 "the frame follow their protocols (CALL-SAVE, CALL-PROTO, JIT-TERM, PROBE-SEQ, LIM-JIT, BR-JIT, FRAME, ABI-OFFSETS); the three runtime "
+                 "functions the code calls store / forward / report what their contract says on every outcome of the wrapped context call (SHIM-EFFECT). "
                  "Necessary conditions of C03; the bytecode generator and the optimiser upstream are not decided.",
         "note": "Trusted: the syn parser; the hand-written reference tables in lib/asmtab.py, lib/asmcore.py (Intel SDM) and the "
                 "canonical-form table in lib/sel.py (derived from bc.rs parameter_reordering, reasons inline); polynomial identity "
